@@ -254,6 +254,19 @@ def generate(tier):
                 vs = [('u', [])] * (v - 6) + [('t', ['bool']), ('u', []), ('n', ['u8']), ('u', []), ('t', ['unit']), ('u', [])]
             k += 1
             cases.append(build(vs, repr, discs, cfgs[k % 4], laws=False))
+    # struct-like variants with two and three fields of one type (a mix-up of bindings type-checks), built-in and through methods
+    for vs in ([('n', ['u8', 'u8'])], [('u', []), ('n', ['u8', 'u8', 'u8'])], [('n', ['bool', 'bool']), ('t', ['u8', 'u8'])], [('n', ['i8', 'i8']), ('u', []), ('n', ['u8', 'u8'])]):
+        for cfg in cfgs:
+            for methods in (False, True):
+                cases.append(build(vs, None, [None] * len(vs), cfg, methods=methods))
+    # field names that differ by the prefixes the templates use for their bindings (x, _x, __x, ...), template locals as field names, raw identifiers
+    from .common import underscorify, rawify, localsify
+    named = [x for x in cases if x is not None and 'n(' in x.key and len(x.body) < 20000]
+    for c in named[::7] + [x for x in named if '+' in x.key or 'n(u8,u8' in x.key or 'n(bool,bool' in x.key or 'n(i8,i8' in x.key]:
+        for tr in (underscorify, rawify, lambda c_: localsify(c_, 0), lambda c_: localsify(c_, 1), lambda c_: localsify(c_, 2)):
+            r_ = tr(c)
+            if r_:
+                cases.append(r_)
     from .common import decoy_layer
     cases += decoy_layer([c for c in cases if c is not None and len(c.body) < 20000], 80)
     seen, out = set(), []
